@@ -356,6 +356,19 @@ def run(repo, chk):
            "`f() as r` adds the capture #value as r, focused exactly when written at the root (f() as r == f(!#value as r))")
     chk.ob("R15.5", "selector.make_as:variable-alias-keeps-tags", "return element.clone(capture=name.name, tags=element.tags | name.tags)" in t, ma.where,
            "`x as y` renames the capture and keeps the focus of either side")
+    for fname in ("make_nested_imm", "make_call_capture", "make_as", "make_equals"):
+        fi_ = repo.func(f"selector.{fname}")
+        bad_ = []
+        n_ = 0
+        for c_ in ast.walk(fi_.node):
+            if isinstance(c_, ast.Call) and isinstance(c_.func, ast.Attribute) and c_.func.attr == "clone":
+                for k_ in c_.keywords:
+                    if k_.arg in ("captures", "children") and isinstance(k_.value, ast.BinOp) and isinstance(k_.value.op, ast.Add):
+                        n_ += 1
+                        if not norm(k_.value.left).endswith("." + k_.arg):
+                            bad_.append(norm(k_.value))
+        chk.ob("R15.5", f"selector.{fname}:appends-in-source-order", not bad_ and n_ >= 1, fi_.where,
+               f"new captures / children are appended after the existing ones ({n_} site(s)): `f(a) > x` and `f(a, !x)` list their captures in the same order" + (f" -- {bad_}" if bad_ else ""))
     mf = repo.func("selector.make_focus")
     chk.ob("R15.5", "selector.make_focus:!-is-with_focus", "return element.with_focus()" in norm(mf.node), mf.where, "`!x` focuses x")
 
